@@ -116,12 +116,37 @@ def slice_fit(item):
         k += 1
     if m_at is None:
         raise LostAnchor('_fit: `match last {` not found')
-    pipeline = toks[bo + 1:m_at]
-    ptxt = rsparse.norm_tokens(pipeline)
-    if 'let first =' not in ptxt or 'let last =' not in ptxt:
+    # statements in front of `match last`: the iterator pipeline (dropped, K-fit) vs anything else (kept verbatim)
+    PIPE = {'iter_units', 'iter', 'si_prefix', 'filter', 'next', 'last', 'find', 'take_while', 'skip_while', 'rev', 'max_by',
+            'min_by', 'fold', 'position', 'nth', 'collect', 'peekable', 'take', 'skip'}
+    stmts, cur, depth = [], [], 0
+    for t in toks[bo + 1:m_at]:
+        cur.append(t)
+        if t.kind == 'punct' and t.text in rsparse.OPEN:
+            depth += 1
+        elif t.kind == 'punct' and t.text in rsparse.CLOSE:
+            depth -= 1
+        elif t.text == ';' and depth == 0:
+            stmts.append(cur)
+            cur = []
+    if cur:
+        raise LostAnchor('_fit: unterminated statement in front of `match last`')
+    kept, bound = [], set()
+    for st in stmts:
+        txt = [t.text for t in st]
+        is_let = txt[0] == 'let'
+        if is_let and any(x in PIPE for x in txt):
+            k = 1
+            if txt[k] == 'mut':
+                k += 1
+            bound.add(txt[k])
+            continue
+        kept.append(item.src[st[0].start:st[-1].end])
+    if 'first' not in bound or 'last' not in bound:
         raise LostAnchor('_fit: pipeline does not bind `first` and `last`')
     tail = item.src[toks[m_at].start:toks[bc].end]
-    return '{\n        let (first, last) = Self::_fit_select(amount); // R3: stands for the iterator pipeline (K-fit)\n        ' + tail
+    pre = ''.join('        ' + k + '\n' for k in kept)
+    return ('{\n' + pre + '        let (first, last) = Self::_fit_select(amount); // R3: stands for the iterator pipeline (K-fit)\n        ' + tail)
 
 
 class Emitter:
@@ -157,6 +182,7 @@ class Emitter:
         src = self.source(relpath)
         item = src.member(header, name)
         alias = None
+        rename = None
         r1_qty = None
         flags = set()
         for o in opts:
@@ -164,6 +190,8 @@ class Emitter:
                 alias = o[3:]
             elif o.startswith('R1='):
                 r1_qty = o[3:]
+            elif o.startswith('rename='):
+                rename = o[7:]
             else:
                 flags.add(o)
         container = alias or header
@@ -199,6 +227,13 @@ class Emitter:
         if 'R3fit' in flags:
             body = slice_fit(item)
             notes.append('R3-fit-sliced')
+        if rename:
+            new_prefix, n = re.subn(r'\bfn\s+%s\b' % re.escape(name), 'fn ' + rename, prefix, count=1)
+            if n != 1:
+                raise LostAnchor(f'{name}: cannot rename')
+            prefix = new_prefix
+            out_name = rename
+            notes.append('R4-renamed')
         if r1_qty:
             body, n = rewrite_as_qty_calls(body, r1_qty)
             if n != 1:
@@ -243,7 +278,13 @@ class Emitter:
                 indent = line[:len(line) - len(line.lstrip())]
                 out.append(self.emit_extract(relpath, header, name, opts, indent).rstrip('\n'))
             elif s == '//@quantity_defaults':
-                if quantity_defaults:
+                if quantity_defaults == 'renamed':
+                    # R4: in files that also hold HasRefUnit the five methods are kept under the names q_<name>
+                    # (same bodies, same contracts), so that a generated impl that delegates to
+                    # `<Self as Quantity>::eq` instead of `<Self as HasRefUnit>::eq` is verified, not rejected
+                    for fn in ('eq', 'partial_cmp', 'add', 'sub', 'div'):
+                        out.append(self.emit_extract('src/lib.rs', 'trait Quantity', fn, ['rename=q_' + fn], '    ').rstrip('\n'))
+                elif quantity_defaults:
                     for fn in ('eq', 'partial_cmp', 'add', 'sub', 'div'):
                         out.append(self.emit_extract('src/lib.rs', 'trait Quantity', fn, [], '    ').rstrip('\n'))
             elif s.startswith('//@include '):
